@@ -86,3 +86,38 @@ func H_C11_order() {
 		}
 	}
 }
+
+// H_C11_padwide: padding far beyond the subject (up to 100 pad characters, so
+// that block-wise or doubling implementations cross their block boundaries)
+// with a pad character of symbolic width 1..4 bytes: the result has exactly
+// the requested number of code points, is valid UTF-8 and equals the
+// code-point based construction.
+func H_C11_padwide() {
+	vrtSpec(2, 1, 2, "x", smASCII, nfInt, 0)
+	vrtBudget(3000000)
+	w := vrtIntRange("w", 0, 100)
+	forms := []string{"pad_left(a, c, b)", "pad_right(a, c, b)", "length(pad_left(a, c, b))", "pad_left(a, c)", "pad_right(a, c)"}
+	expr := forms[vrtChoose("form", len(forms))]
+	vrtNote("template:" + expr)
+	doc := map[string]any{
+		"a": vrtStr("a", 1, smUTF8|(0x4f<<2)),
+		"b": vrtStrN("b", 1, smUTF8|(0x4f<<2)),
+		"c": w,
+	}
+	got, err := Search(expr, doc)
+	if err == nil {
+		vrtAssert(c11ValidResult(got), "result contains invalid UTF-8")
+	}
+	want, ec := refSearch(expr, doc)
+	if ec == ecUnspecified {
+		return
+	}
+	if ec != ecNone {
+		vrtAssert(err != nil && ecOfError(err) == ec, "error category differs from the specification: want "+ecNames[ec])
+		return
+	}
+	vrtAssert(err == nil, "unexpected error")
+	if err == nil {
+		vrtAssert(refEqual(got, want), "value differs from the code-point based specification")
+	}
+}
